@@ -70,7 +70,7 @@ def step (st : St) (args : List String) : St × String :=
        match parseDict bs with
        | .error _ => fin st.dec st.src "fault"
        | .ok none => fin st.dec st.src "err dict"
-       | .ok (some d) => fin { st.dec with dicts := d :: st.dec.dicts.filter (fun x => x.id ≠ d.id) } st.src s!"ok {d.id}")
+       | .ok (some d) => fin (st.dec.addDict d) st.src s!"ok {d.id}")
   | ["forcedict", n] =>
     (match n.toNat? with
      | some id => let (d, o) := st.dec.forceDict id; fin d st.src (showOut o fun _ => "")
@@ -123,6 +123,15 @@ def step (st : St) (args : List String) : St × String :=
         | (d, .ok out) => fin d st.src s!"ok {showBytes out}"
         | (d, o) => fin d st.src (showOut o fun _ => ""))
      | _, _ => (st, badOp))
+  | ["allvec", h, pre, room] =>
+    -- `decode_all_to_vec` into a vector holding `pre` with `room` bytes of spare capacity
+    (match bytesOfHex h, (if pre == "-" then some [] else bytesOfHex pre), room.toNat? with
+     | some bs, some pb, some k =>
+       (match st.dec.decodeAllToVec bs pb.toArray k with
+        | (d, v, .ok ()) => fin d st.src s!"ok {showBytes (v.extract pb.length v.size)} vec={v.size} pre={showBytes (v.extract 0 pb.length)}"
+        | (d, v, .err e) => fin d st.src s!"{e.render} vec={v.size} pre={showBytes (v.extract 0 pb.length)}"
+        | (d, v, .fault f) => fin d st.src s!"{showFault f} vec={v.size} pre={showBytes (v.extract 0 pb.length)}")
+     | _, _, _ => (st, badOp))
   | ["sread", n] =>
     (match n.toNat? with
      | none => (st, badOp)
